@@ -380,12 +380,13 @@ def _substr(t, lo, n):
         if len(parts) == 1:
             return _substr(parts[0], lo, n)
         total = z3.simplify(sum((z3.Length(p) for p in parts), z3.IntVal(0)))
-        if _prove(z3.And(lo == 0, n >= total)):
+        if z3.is_int_value(lo) and lo.as_long() == 0 and _prove(n >= total):
             return _join(parts)
         return z3.SubString(_join(parts), lo, n)
-    if _prove(z3.And(lo == 0, n >= z3.Length(t))):
+    lo_s = z3.simplify(lo) if z3.is_expr(lo) else z3.IntVal(lo)
+    if z3.is_int_value(lo_s) and lo_s.as_long() == 0 and _prove(n >= z3.Length(t)):
         return t
-    return z3.SubString(t, z3.simplify(lo), z3.simplify(n))
+    return z3.SubString(t, lo_s, z3.simplify(n))
 
 
 def _merge_extracts(a, b):
@@ -395,7 +396,8 @@ def _merge_extracts(a, b):
         s1, a1, n1 = a.children()
         s2, a2, n2 = b.children()
         if s1.eq(s2) and _prove(a2 == a1 + n1) and _prove(z3.And(a1 >= 0, n1 >= 0, n2 >= 0, a1 + n1 <= z3.Length(s1))):
-            if _prove(z3.And(a1 == 0, n1 + n2 >= z3.Length(s1))):
+            a1s = z3.simplify(a1)
+            if z3.is_int_value(a1s) and a1s.as_long() == 0 and _prove(n1 + n2 >= z3.Length(s1)):
                 return s1
             return z3.SubString(s1, a1, z3.simplify(n1 + n2))
     # a whole string followed by / preceded by an empty extraction of anything is handled by the simplifier
